@@ -41,7 +41,7 @@ class FragmentsGenerator:
 
         names_to_exclude = exclude_names or set()
         self._fragments_names = self._fragments_names - names_to_exclude
-        for name in self._fragments_names:
+        for name in sorted(self._fragments_names):
             fragmanet_def = self.fragments_definitions[name]
             generator = ResultTypesGenerator(
                 schema=self.schema,
